@@ -2,16 +2,18 @@
 # usage: run_all.sh [tier] — runs every check once, prints one line per check, validates the evidence files
 TIER="${1:-quick}"
 cd "$(dirname "$0")/.."
+LOGDIR="${VF_LOGDIR:-$(mktemp -d /tmp/vf_run.XXXXXX)}"
+echo "logs in $LOGDIR"
 for i in 01 02 03 04 05 06 07 08 09 10 11 12 13 14 15 16 17 18 19 20; do
   S=$(date +%s)
-  ./check C$i "$TIER" > /tmp/vf_run_C$i.log 2>&1
+  ./check C$i "$TIER" > $LOGDIR/C$i.log 2>&1
   RC=$?
-  echo "C$i rc=$RC $(( $(date +%s) - S ))s $(grep 'seed=' /tmp/vf_run_C$i.log | cut -c1-200)"
+  echo "C$i rc=$RC $(( $(date +%s) - S ))s $(grep 'seed=' $LOGDIR/C$i.log | cut -c1-200)"
 done
 python3-vt - <<'PY'
 import json, jsonschema, glob
 sch = json.load(open('/root/.vp/EVIDENCE.schema.json'))
-for f in sorted(glob.glob('/verif/evidence/C*.json')):
+for f in sorted(glob.glob('evidence/C*.json')):
     try:
         jsonschema.validate(json.load(open(f)), sch)
     except Exception as e:
